@@ -88,6 +88,25 @@ theorem evalCfi_dollar_reg (env : Env) (cfa : Option UInt64) (n : Name) :
   simp only [evalCfi, List.map_cons, List.map_nil, classify_dollar]
   exact eval_postfix env cfa (.reg n)
 
+/-! "`<a signed decimal integer>`: read this integer constant (limited to i64 precision)" -/
+
+/-- a non-negative decimal literal within `i64` denotes itself; beyond `i64::MAX` it is not a literal -/
+theorem literal_nonneg (n : Nat) :
+    parseI64 (renderNat n) = if n < 2^63 then some (UInt64.ofNat n) else none := by
+  obtain ⟨d, rest, hd, hr⟩ := renderNat_head n
+  have hp := parseDigits_render n
+  rw [hr] at hp ⊢
+  simp only [parseI64, (digit_not_sign d hd).1, (digit_not_sign d hd).2, Bool.false_eq_true, if_false, hp]
+
+/-- a negative decimal literal `-n` within `i64` denotes `2^64 - n` (two's complement);
+    below `i64::MIN` it is not a literal -/
+theorem literal_neg (n : Nat) :
+    parseI64 (0x2D :: renderNat n) = if n ≤ 2^63 then some (UInt64.ofNat (2^64 - n)) else none := by
+  obtain ⟨d, rest, hd, hr⟩ := renderNat_head n
+  have hp := parseDigits_render n
+  simp only [parseI64, hp]
+  rw [hr]; simp
+
 /-- literals: decimal, optional sign, two's complement, `i64` range — out of range is not a
     literal (and then names a register nobody has) -/
 example : classify [0x2D, 0x38] = .lit 0xFFFFFFFFFFFFFFF8 := by decide                    -- "-8"
